@@ -370,7 +370,8 @@ func jsonEntries() []*Entry {
 	into("types.Receipt", [][]byte{must(json.Marshal(richReceipt()))}, func() interface{} { return new(types.Receipt) }, nil)
 	into("types.Log", [][]byte{must(json.Marshal(richReceipt().Logs[0]))}, func() interface{} { return new(types.Log) }, nil)
 	into("types.AccessList", [][]byte{must(json.Marshal(types.AccessList{{Address: addrIn(3), StorageKeys: []common.Hash{h(62)}}}))}, func() interface{} { return new(types.AccessList) }, nil)
-	into("types.OutpointAndDenomination", [][]byte{must(json.Marshal(&types.OutpointAndDenomination{TxHash: h(72), Index: 2, Denomination: 3, Lock: big.NewInt(5)}))},
+	into("types.OutpointAndDenomination", [][]byte{[]byte(`{"txHash":"` + h(72).Hex() + `","index":"0x2","denomination":"0x3","lock":"0x5"}`), // (the type has no MarshalJSON: the default encoding writes numbers its UnmarshalJSON refuses)
+		must(json.Marshal(&types.OutpointAndDenomination{TxHash: h(72), Index: 2, Denomination: 3, Lock: big.NewInt(5)}))},
 		func() interface{} { return new(types.OutpointAndDenomination) }, nil)
 	// raw hex decoders
 	es = append(es, &Entry{Name: "hexutil.Decode*", Seeds: [][]byte{[]byte("0x0102ff"), []byte("0x1234")}, Fn: func(in []byte) (bool, error) {
